@@ -44,6 +44,9 @@ class LinkMonitor:
             mon.cov.inc("load_writes")
             if new is None:
                 return
+            if new == 0.0:
+                # reset (tick start, or an endpoint went down: Link.endpoint_down zeroes the load by design)
+                mon.delivered[link.uuid] = 0.0
             if link.bandwidth > 0:
                 mon.max_ratio = max(mon.max_ratio, new / link.bandwidth)
             mon.events.append(("load", str(link), round(old or 0.0, 9), round(new, 9), "depth", mon.depth))
